@@ -27,7 +27,16 @@ def registry_histories(ck, prop, q, kinds=None, edge_sample=2500):
     rnd = random.Random(ck.seed)
     rnd.shuffle(edges)
     if q:
-        edges = edges[:edge_sample]
+        # stratified by the operation the history ends with: the rare ones (idle close) get the larger share
+        quota = {"idle": edge_sample // 4}
+        rest = (edge_sample - quota["idle"]) // 6
+        taken, cnt = [], {}
+        for e in edges:
+            op = e["hist"][-1]["op"]
+            if cnt.get(op, 0) < quota.get(op, rest):
+                cnt[op] = cnt.get(op, 0) + 1
+                taken.append(e)
+        edges = taken
     rs = ck.tlc("registry", "Registry", "RegSim.cfg", simulate="num=%d" % (30 if q else 400), depth=16, timeout=900, label="registry: simulated long histories")
     sims = rs.printed("@H")
     if len(rows) < 50 or len(edges) < 500 or len(sims) < 5:
@@ -68,10 +77,16 @@ def run(ck):
     reps = 1 if q else 5
     ck.run_driver("./registry", "^TestRace$", {"VERIF_IN": ck.write_lines("race_in.ndjson", scheds * reps), "VERIF_OUT": tr})
     lines = open(tr).read().splitlines()
-    if len(lines) != 2 * len(scheds) * reps:
-        raise Infra("race driver produced %d of %d results" % (len(lines), 2 * len(scheds) * reps))
-    taken = sum(json.loads(l)["taken"] for l in lines)
-    if taken < 3 * len(lines):
+    if len(lines) != 3 * len(scheds) * reps:
+        raise Infra("race driver produced %d of %d results" % (len(lines), 3 * len(scheds) * reps))
+    trs = os.path.join(ck.tmp, "race_stress.ndjson")
+    ck.run_driver("./registry", "^TestRaceStress$", {"VERIF_OUT": trs})
+    with open(tr, "a") as f:
+        f.write(open(trs).read())
+    lines = open(tr).read().splitlines()
+    gated = [json.loads(l) for l in lines if json.loads(l)["mode"] != "stress"]
+    taken = sum(g["taken"] for g in gated)
+    if taken < 3 * len(gated):
         raise Infra("dead driver: race schedules took %d gate steps" % taken)
     rt = ck.tlc("registry", "RaceTrace", "RaceTrace.cfg", workers=1, env={"VERIF_TRACE": tr}, label="validation of race outcomes")
     if rt.distinct != len(lines) + 1:
